@@ -13,6 +13,11 @@ import (
 // handleCEA handles Capabilities-Exchange-Answer messages.
 func handleCEA(sm *StateMachine, errc chan error) diam.HandlerFunc {
 	return func(c diam.Conn, m *diam.Message) {
+		if _, ok := smpeer.FromContext(c.Context()); ok {
+			// Handshake already done (errc is closed): ignore
+			// further or duplicate CEAs.
+			return
+		}
 		cea := new(smparser.CEA)
 		if err := cea.Parse(m, smparser.Client); err != nil {
 			errc <- err
